@@ -76,6 +76,11 @@ func (s *PFCPSession) UpdatePDR(p pdr) error {
 			if v.UPAllocateFteid && p.tunnelTEID == v.tunnelTEID {
 				p.UPAllocateFteid = true
 			}
+
+			// and the fact that its UE address came from the pool
+			if v.allocIPFlag && p.ueAddress == v.ueAddress {
+				p.allocIPFlag = true
+			}
 			s.pdrs[idx] = p
 
 			return nil
